@@ -1735,7 +1735,7 @@ pub fn run(ctx: &Ctx) -> Evidence {
 
     error_code_mapping(ctx, &mut ev);
 
-    let sessions = ctx.tier.pick(8000usize, 40_000usize);
+    let sessions = ctx.tier.pick(8000usize, 120_000usize);
     let shards = ctx.tier.pick(16usize, 64usize);
     let per_shard = sessions.div_ceil(shards);
     let evaluations_before = worterbuch::verif::invariant_evaluations();
